@@ -101,6 +101,14 @@ theorem bucket_step (wl : Bool) (d : Nat) (tl : List (Blk α))
       (tl.flatMap (fun t => t.r.1), tl.flatMap (fun t => t.r.2)) :=
   blocks_spec str wl d tl hok hcross hm
 
+/-- C03/distribution: the out-of-place pass of RadixStep_CE0/CE2/CE3 (count, exclusive prefix sum,
+`*(bkt_index[key]++) = ss[i]` into the shadow array, transliterated on arrays) puts into bucket `b`
+exactly the strings with key `b`, in input order (stable) -/
+theorem scatter_correct (R : Nat) (key : α → Nat) (ss : List α) (hkey : ∀ x ∈ ss, key x < R) (c : Nat)
+    (hc : c < R) : (scatterBuckets R key ss)[c]? = some (ss.filter fun x => key x == c) := by
+  rw [scatterBuckets_eq R key ss hkey]
+  exact buckets_filter R key ss c hc
+
 /-- C03/D23: the border loop (as fixed) stores `depth` exactly at the first entry of every
 non-empty bucket that has a non-empty predecessor, fills bucket 0, keeps entry 0 and the length —
 for every vector of bucket sizes, including "everything in bucket 0" -/
